@@ -474,6 +474,7 @@ func genMulti(rng *rand.Rand, tcp bool) input {
 	type ci struct{ alive, held bool }
 	var conns []ci
 	haveOut := false // an established connection exists (a plain send would reuse it)
+	zeroFirst := true
 	msg := 40
 	add := func() {
 		switch k := rng.Intn(4); {
@@ -484,6 +485,9 @@ func genMulti(rng *rand.Rand, tcp bool) input {
 			conns = append(conns, ci{alive: true})
 			nconn++
 		case k == 1 && !haveOut:
+			if len(conns) == 0 {
+				zeroFirst = false // the second dial registers first: connection 0 is not the first of the table
+			}
 			// second dial while the first is held before registration
 			ms = append(ms, m1("sendhold", 0), m1("send", 0), m1("sendrelease", nsend))
 			nsend += 2
@@ -506,7 +510,7 @@ func genMulti(rng *rand.Rand, tcp bool) input {
 	for len(conns) < 2+rng.Intn(2) {
 		add()
 	}
-	if rng.Intn(3) == 0 {
+	if zeroFirst && rng.Intn(3) == 0 {
 		// retried send: kill the first registered connection while its handler is busy
 		msg++
 		ms = append(ms, m2("deliverhold", 0, msg), m1("peerclose", 0), m1("send", 0), m1("deliverrelease", 0))
